@@ -45,6 +45,7 @@ import (
 	"path/filepath"
 	"strings"
 	"sync"
+	"testing/synctest"
 	"time"
 
 	"golang.org/x/sync/semaphore"
@@ -70,10 +71,17 @@ var llrChars = []string{"a", "b", "c", " ", "\n", "é", "è", "日", "本", "€
 // characters of the endless tail that follows a text when the request must run into its limit
 var llrFill = []string{"x", "y", "z"}
 
+// characters of the C07 histories: single-character tokens that are part of no longer token, so
+// that a text over them has exactly one tokenisation (one token per character), prompts that are
+// prefixes of one another as text are prefixes as token sequences, and the tokens a request
+// generated can be read off the text it returned.
+var llrGenChars = []string{"d", "e", "f", "g", "h", "i", "j", "k", "l", "m", "n", "o", "ü", "λ"}
+
 type llrVocab struct {
 	tokens []string
 	types  []int32
 	id     map[string]int
+	gen    []int // ids of llrGenChars
 }
 
 // llrBuildVocab is a pure function: the same vocabulary in every process.
@@ -99,6 +107,10 @@ func llrBuildVocab() *llrVocab {
 	}
 	for _, c := range llrFill {
 		add(c, 1)
+	}
+	for _, c := range llrGenChars {
+		add(c, 1)
+		v.gen = append(v.gen, v.id[c])
 	}
 	for _, a := range llrChars {
 		for _, b := range llrChars {
@@ -186,7 +198,15 @@ func llrWriteModel(path string, spec llrModelSpec, v *llrVocab) (*llrWeights, er
 	case "flat":
 		w.out = make([]float32, nv*D)
 	case "rand":
-		w.out = rnd("output.weight", nv*D, 1)
+		// only the single-character tokens of llrGenChars (and, less often, EOS) can win: every other row is zero
+		w.out = make([]float32, nv*D)
+		r := rnd("output.weight", nv*D, 1)
+		for _, id := range v.gen {
+			copy(w.out[id*D:(id+1)*D], r[id*D:(id+1)*D])
+		}
+		for d := 0; d < D; d++ {
+			w.out[llrTokEOS*D+d] = 0.7 * r[llrTokEOS*D+d]
+		}
 	default:
 		return nil, fmt.Errorf("unknown model kind %q", spec.Kind)
 	}
@@ -251,9 +271,19 @@ type llrConfig struct {
 	MultiUser bool `json:"multi_user,omitempty"`
 }
 
+// llrCtxKey identifies a llama.cpp context: llama.cpp rounds the context size up to a multiple of
+// 32 and the batch size up to 64, so runner configurations that differ below that get the same
+// context parameters from llama.cpp's point of view. A context costs ~480 MiB of address space and
+// cannot be freed through the Go API: the harnesses keep the number of distinct keys small.
 type llrCtxKey struct {
-	spec llrModelSpec
-	cfg  llrConfig
+	spec     llrModelSpec
+	kvPad    int // num_ctx * parallel rounded up to a multiple of 32
+	nBatch   int // max(64, batch * parallel)
+	parallel int
+}
+
+func llrKey(spec llrModelSpec, cfg llrConfig) llrCtxKey {
+	return llrCtxKey{spec: spec, kvPad: (cfg.NumCtx*cfg.Parallel + 31) / 32 * 32, nBatch: max(64, cfg.Batch*cfg.Parallel), parallel: cfg.Parallel}
 }
 
 type llrLoaded struct {
@@ -340,7 +370,7 @@ type llrServer struct {
 // and context through the runner's own loadModel; later ones reuse that model/context pair (no
 // llama_free in the Go API) under a fresh Server literal, a fresh InputCache and a cleared KV cache.
 func (e *llrEngine) server(spec llrModelSpec, cfg llrConfig) (ls *llrServer, err error) {
-	key := llrCtxKey{spec, cfg}
+	key := llrKey(spec, cfg)
 	s := &Server{
 		batchSize: cfg.Batch,
 		parallel:  cfg.Parallel,
@@ -451,19 +481,57 @@ type llrRequest struct {
 	Options api.Options
 }
 
+// llrSlowWriter is the response writer of a client that stops reading for a while: from the
+// stallAfter-th chunk on, Write blocks (as it does on a full TCP send buffer) until the gate opens.
+type llrSlowWriter struct {
+	*httptest.ResponseRecorder
+	writes, stallAfter int
+	gate               chan struct{}
+}
+
+func (w *llrSlowWriter) Write(b []byte) (int, error) {
+	if w.writes >= w.stallAfter {
+		<-w.gate
+	}
+	w.writes++
+	return w.ResponseRecorder.Write(b)
+}
+
+// llrSlow describes a slow client. Server, request and stop must then run inside one
+// testing/synctest bubble: synctest.Wait() is the exact "nothing can move any more" signal (run
+// loop blocked on the full response buffer or idle, handler blocked in Write) at which the client
+// starts reading again - no sleep, no wall clock; the watchdogs run on the bubble's virtual clock.
+type llrSlow struct {
+	stallAfter int
+	blocked    bool // out: the sequence was still alive when the client resumed
+}
+
 // complete posts one request to the real completion handler and waits for the handler to return.
-func (ls *llrServer) complete(r llrRequest) (lines []llrLine, status int, err error) {
+func (ls *llrServer) complete(r llrRequest, slow *llrSlow) (lines []llrLine, status int, err error) {
 	body, err := json.Marshal(llm.CompletionRequest{Prompt: r.Prompt, Grammar: r.Grammar, Options: &r.Options})
 	if err != nil {
 		return nil, 0, fmt.Errorf("harness: %v", err)
 	}
 	rr := httptest.NewRecorder()
+	var w http.ResponseWriter = rr
+	var sw *llrSlowWriter
+	if slow != nil {
+		sw = &llrSlowWriter{ResponseRecorder: rr, stallAfter: slow.stallAfter, gate: make(chan struct{})}
+		w = sw
+	}
 	req := httptest.NewRequest(http.MethodPost, "/completion", bytes.NewReader(body))
 	handlerDone := make(chan any, 1)
 	go func() {
 		defer func() { handlerDone <- recover() }()
-		ls.s.completion(rr, req)
+		ls.s.completion(w, req)
 	}()
+	if sw != nil {
+		synctest.Wait() // every goroutine of the bubble is durably blocked (or gone)
+		for _, sq := range ls.s.seqs { // no lock: nothing runs, and a blocked run loop holds s.mu
+			slow.blocked = slow.blocked || sq != nil
+		}
+		close(sw.gate)
+	}
 	select {
 	case p := <-handlerDone:
 		if p != nil {
@@ -479,6 +547,14 @@ func (ls *llrServer) complete(r llrRequest) (lines []llrLine, status int, err er
 		return nil, 0, errors.New("no final message: the handler has not returned after 60 s")
 	}
 	return llrDecodeLines(rr)
+}
+
+func llrBody(r llrRequest) (*bytes.Reader, error) {
+	body, err := json.Marshal(llm.CompletionRequest{Prompt: r.Prompt, Grammar: r.Grammar, Options: &r.Options})
+	if err != nil {
+		return nil, fmt.Errorf("harness: %v", err)
+	}
+	return bytes.NewReader(body), nil
 }
 
 func llrDecodeLines(rr *httptest.ResponseRecorder) (lines []llrLine, status int, err error) {
@@ -576,6 +652,18 @@ func (e *llrEngine) llrReference(spec llrModelSpec, r llrRequest, limit, hardCap
 	return g, nil
 }
 
+// llrNearest maps v to the largest allowed value <= v (the first one if there is none): shrunk or
+// hand-written cases may hold anything, and the number of distinct llama.cpp contexts must stay small.
+func llrNearest(v int, allowed []int) int {
+	best := allowed[0]
+	for _, a := range allowed {
+		if v >= a {
+			best = a
+		}
+	}
+	return best
+}
+
 // llrGrammarLiteral writes s as a GBNF string literal.
 func llrGrammarLiteral(s string) string {
 	var sb strings.Builder
@@ -589,4 +677,101 @@ func llrGrammarLiteral(s string) string {
 	}
 	sb.WriteByte('"')
 	return sb.String()
+}
+
+// ------------------------------------------------------------------- reference with margins (C07)
+
+// llrRefSeq evaluates token sequences from scratch on the reference context and computes the
+// logits itself: llama.cpp hands out the final hidden state of a token (the runner's contexts and
+// this one are created with embeddings enabled), the harness multiplies it with the output.weight
+// it wrote into the model file. The winner and its distance to the runner-up are therefore known
+// without llama.cpp's sampler, and independent of anything a runner has cached.
+type llrRefSeq struct {
+	e   *llrEngine
+	ref *llrLoaded
+	w   *llrWeights
+	cur []int // tokens whose K/V the reference context holds, at positions 0..len-1
+}
+
+func (e *llrEngine) refSeq(spec llrModelSpec) (*llrRefSeq, error) {
+	ref, err := e.ref(spec)
+	if err != nil {
+		return nil, err
+	}
+	ref.lc.KvCacheClear()
+	return &llrRefSeq{e: e, ref: ref, w: e.weights[spec]}, nil
+}
+
+// logits evaluates `tokens` as a fresh sequence at positions 0..n-1 and returns the logits after the last one.
+func (r *llrRefSeq) logits(tokens []int) ([]float64, error) {
+	if len(tokens) == 0 || len(tokens) > llrRefCtx {
+		return nil, fmt.Errorf("harness: reference sequence of %d tokens", len(tokens))
+	}
+	from := 0
+	if len(r.cur) < len(tokens) && slicesEqualInts(r.cur, tokens[:len(r.cur)]) {
+		from = len(r.cur)
+	} else {
+		r.ref.lc.KvCacheClear()
+	}
+	batch, err := llama.NewBatch(64, 1, 0)
+	if err != nil {
+		return nil, err
+	}
+	defer batch.Free()
+	for from < len(tokens) {
+		batch.Clear()
+		for i := 0; i < 64 && from < len(tokens); i++ {
+			batch.Add(tokens[from], nil, from, from == len(tokens)-1, 0)
+			from++
+		}
+		if err := r.ref.lc.Decode(batch); err != nil {
+			r.cur = nil
+			return nil, fmt.Errorf("harness: reference decode: %v", err)
+		}
+	}
+	r.cur = append(r.cur[:0], tokens...)
+	return r.w.head(r.ref.lc.GetEmbeddingsIth(batch.NumTokens() - 1))
+}
+
+// head multiplies a final hidden state with output.weight (in float64).
+func (w *llrWeights) head(h []float32) ([]float64, error) {
+	if len(h) != llrEmbd {
+		return nil, fmt.Errorf("harness: no hidden state from the context (%d values)", len(h))
+	}
+	out := make([]float64, w.nVocab)
+	for id := range out {
+		for d := 0; d < llrEmbd; d++ {
+			out[id] += float64(w.out[id*llrEmbd+d]) * float64(h[d])
+		}
+	}
+	return out, nil
+}
+
+// next returns the token with the largest logit after `tokens` and the margin to the second largest.
+func (r *llrRefSeq) next(tokens []int) (tok int, margin float64, err error) {
+	ls, err := r.logits(tokens)
+	if err != nil {
+		return 0, 0, err
+	}
+	best, second := math.Inf(-1), math.Inf(-1)
+	for id, l := range ls {
+		if l > best {
+			best, second, tok = l, best, id
+		} else if l > second {
+			second = l
+		}
+	}
+	return tok, best - second, nil
+}
+
+func slicesEqualInts(a, b []int) bool {
+	if len(a) != len(b) {
+		return false
+	}
+	for i := range a {
+		if a[i] != b[i] {
+			return false
+		}
+	}
+	return true
 }
